@@ -13,6 +13,7 @@ in a `set`).
 """
 from __future__ import annotations
 
+import datetime as _dt
 import os
 import shutil
 import weakref
@@ -47,9 +48,13 @@ META = {
         "may be written once (the statement allows records before completion 'when saving stops'); completed flows must not",
         "a flow already written at an earlier stop is written again when it completes in a later session (two sentences of "
         "the statement, no conflict); in overwrite mode the earlier record is gone with the truncated file",
-        "file rotation (changing save_stream_file to another path while saving) and strftime paths are not explored",
-        "the bytes before the previous end of file are not re-read after every action (only at the end of each explored "
-        "history); Save never seeks",
+        "save_stream_file is a strftime pattern and `datetime` inside addons.save is replaced by a checker-owned clock that "
+        "moves only at the explorer's `tick` action (any point between two hooks); the oracle spans every file the pattern "
+        "has expanded to: a completion record may land in any of them, exactly once; a file may shrink only if it is the "
+        "current expansion and saving (re)starts in overwrite mode; rotation by *changing the option* to another path while "
+        "saving is not explored",
+        "the bytes before the previous end of each file are not re-read after every action (only at the end of each "
+        "explored history); Save never seeks",
     ],
 }
 
@@ -85,6 +90,27 @@ NEXT = {
 
 SCRATCH = None
 _COUNTER = [0]
+MAX_TICKS = 2   # the most clock ticks any scope uses (=> at most 3 files per execution)
+
+# save_stream_file is a strftime pattern (`...-%M.flows`); Save asks `datetime.today()` for the current expansion
+# whenever it is about to write or is re-configured.  The checker owns that clock: it only moves when the explorer
+# plays the `tick` action, i.e. the file name changes at environment-chosen points between hooks.
+_NOW = [0]
+
+
+class _Clock:
+    """stands in for the `datetime` class inside mitmproxy.addons.save"""
+
+    @staticmethod
+    def today():
+        return _dt.datetime(2020, 1, 1, 0, _NOW[0], 0)
+
+
+save.datetime = _Clock  # type: ignore
+
+
+def file_of(pattern, tick):
+    return pattern.replace("%M", "%02d" % tick)
 
 
 def scratch_dir():
@@ -101,10 +127,11 @@ def _cleanup(sa, path):
             sa.stream.fo.close()
     except Exception:
         pass
-    try:
-        os.unlink(path)
-    except OSError:
-        pass
+    for t in range(MAX_TICKS + 1):
+        try:
+            os.unlink(file_of(path, t))
+        except OSError:
+            pass
 
 
 def new_flow(name):
@@ -130,8 +157,9 @@ class Sys:
     def __init__(self):
         self.sa = None
         self.tctx = None
-        self.path = None
-        self.off = 0               # bytes of the stream file already read back
+        self.path = None           # strftime pattern; file_of(path, tick) are the files it expands to
+        self.tick = 0              # the checker's clock
+        self.off = {}              # tick -> bytes of that stream file already read back
         self.flows = {}            # name -> real flow object (created at its start hook)
         # model
         self.active = False
@@ -140,7 +168,7 @@ class Sys:
         self.resp = {}             # name -> bool
         self.err = {}              # name -> bool
         self.must = set()          # started in the current saving session, still open
-        self.expected_file = []    # model of the whole file: list of items, an item is a record or a set of records
+        self.expected_file = {}    # tick -> model of that whole file: list of items, an item is a record or a set of records
         self.step = None
 
 
@@ -153,26 +181,32 @@ def desc_real(f):
 
 
 class Spec:
-    def __init__(self, pool=None, max_concurrent=MAX_CONCURRENT):
+    def __init__(self, pool=None, max_concurrent=MAX_CONCURRENT, max_ticks=1):
         self.pool = list(pool or POOL)
         self.max_concurrent = max_concurrent
+        self.max_ticks = min(max_ticks, MAX_TICKS)
 
     def build(self):
         s = Sys()
         s.sa = save.Save()
         s.tctx = addonctx.new_context(s.sa)
         addonctx.activate(s.tctx)
+        _NOW[0] = 0
         _COUNTER[0] += 1
-        s.path = os.path.join(scratch_dir(), "%d-%d.flows" % (os.getpid(), _COUNTER[0]))
+        s.path = os.path.join(scratch_dir(), "%d-%d-%%M.flows" % (os.getpid(), _COUNTER[0]))
         weakref.finalize(s, _cleanup, s.sa, s.path)
         return s
 
     def fingerprint(self, s):
         sa = s.sa
+        open_tick = None
+        if sa.current_path:
+            open_tick = [t for t in range(MAX_TICKS + 1) if file_of(s.path, t) == sa.current_path] or [sa.current_path]
         return [
             s.active, s.fidx, sorted(s.stage.items()), sorted(s.resp.items()), sorted(s.err.items()), sorted(s.must),
             sorted(f.id for f in sa.active_flows), sa.stream is not None, sa.filt is not None,
             (s.tctx.options.save_stream_file or "").replace(s.path, "P"), s.tctx.options.save_stream_filter,
+            s.tick, open_tick,
         ]
 
     def actions(self, s):
@@ -195,29 +229,42 @@ class Spec:
         else:
             acts.append(["start", "overwrite"])
             acts.append(["start", "append"])
+        if s.tick < self.max_ticks:
+            acts.append(["tick"])
         return acts
 
     # -- observation ------------------------------------------------------------------
     def _read_new(self, s):
-        """records appended since the last look; (records, truncated)"""
-        try:
-            size = os.stat(s.path).st_size
-        except FileNotFoundError:
-            size = 0
-        truncated = size < s.off
-        if truncated:
-            s.off = 0
-        recs = []
-        if size > s.off:
-            with open(s.path, "rb") as fo:
-                fo.seek(s.off)
-                try:
-                    for f in mio.FlowReader(fo).stream():
-                        recs.append(desc_real(f))
-                except Exception as e:  # what Save appended is not a sequence of flow records
-                    recs.append(["<unreadable: %s>" % type(e).__name__, False, False])
-        s.off = size
-        return recs, truncated, size
+        """records appended to any of the produced files since the last look:
+        ({tick: records}, [ticks of files that shrank], size of the file the pattern expands to right now)"""
+        per_file = {}
+        shrunk = []
+        cur_size = 0
+        for t in range(MAX_TICKS + 1):
+            path = file_of(s.path, t)
+            try:
+                size = os.stat(path).st_size
+            except FileNotFoundError:
+                size = 0
+            off = s.off.get(t, 0)
+            if size < off:
+                shrunk.append(t)
+                off = 0
+            recs = []
+            if size > off:
+                with open(path, "rb") as fo:
+                    fo.seek(off)
+                    try:
+                        for f in mio.FlowReader(fo).stream():
+                            recs.append(desc_real(f))
+                    except Exception as e:  # what Save appended is not a sequence of flow records
+                        recs.append(["<unreadable: %s>" % type(e).__name__, False, False])
+            s.off[t] = size
+            if recs:
+                per_file[t] = recs
+            if t == s.tick:
+                cur_size = size
+        return per_file, shrunk, cur_size
 
     # -- transitions ------------------------------------------------------------------
     def apply(self, s, a):
@@ -225,6 +272,11 @@ class Spec:
         s.step = st = {"bad": [], "ok": [], "new": None, "nontrivial": False}
         op = a[0]
         exc = None
+        if op == "tick":
+            s.tick += 1
+        _NOW[0] = s.tick
+        # Save still has the file of an earlier expansion open: its next write / re-configuration has to rotate
+        rotation_due = s.sa.current_path is not None and s.sa.current_path != file_of(s.path, s.tick)
         try:
             if op == "hook":
                 self._drive_hook(s, a[1], a[2])
@@ -238,7 +290,11 @@ class Spec:
             raise
         except BaseException as e:
             exc = "%s: %s" % (type(e).__name__, e)
-        recs, truncated, size = self._read_new(s)
+        per_file, shrunk, size = self._read_new(s)
+        recs = [r for t in sorted(per_file) for r in per_file[t]]
+        overwrite_start = op == "start" and a[1] == "overwrite"
+        # the only file that may shrink is the one the pattern expands to now, and only when saving (re)starts in overwrite mode
+        truncated = [t for t in shrunk if not (overwrite_start and t == s.tick)]
         st["new"] = recs
         feats = {"op": a[2] if op == "hook" else op}
         if op == "hook":
@@ -247,6 +303,7 @@ class Spec:
             feats["mode"] = a[1]
         feats["filter"] = s.fidx if op != "filter" else a[1]
         feats["active"] = s.active
+        feats["rotation_due"] = rotation_due
 
         def bad(clause, cause, exp=None, **more):
             st["bad"].append((clause, dict(feats, cause=cause, **more), exp, {"appended": recs, "truncated": truncated}))
@@ -256,12 +313,23 @@ class Spec:
             st["bad"][-1] = st["bad"][-1][:3] + (exc,)
         names = [r[0] for r in recs]
         # what the whole file must look like from now on (checked by final()): whatever was appended stays, in place
-        if truncated or (op == "start" and a[1] == "overwrite"):
-            s.expected_file = []
-        if op == "stop":
-            s.expected_file.append(sorted(recs))
-        else:
-            s.expected_file += recs
+        for t in shrunk:
+            s.expected_file[t] = []
+        if overwrite_start:
+            s.expected_file[s.tick] = []
+        for t, rs in per_file.items():
+            if op == "stop":
+                s.expected_file.setdefault(t, []).append(sorted(rs))
+            else:
+                s.expected_file.setdefault(t, []).extend(rs)
+        if op == "tick":
+            if recs:
+                bad("nothing_before_completion_except_at_stop", "records_when_only_the_clock_moved", [])
+            else:
+                st["ok"].append("nothing_before_completion_except_at_stop")
+            if truncated:
+                bad("one_record_per_completion_of_matching_flow", "file_truncated", "files only grow")
+            return
 
         if op == "start":
             if a[1] == "overwrite":
@@ -415,60 +483,67 @@ class Spec:
         t.case(sample, nontrivial=nontrivial, key=[self.fingerprint(s), a, sorted(new)])
 
     def final(self, s, hist, t: Tally):
-        """whole file against the model of the whole file (records at a stop compare as a sorted group)"""
-        try:
-            with open(s.path, "rb") as fo:
-                got = [desc_real(f) for f in mio.FlowReader(fo).stream()]
-        except FileNotFoundError:
-            got = []
-        want = []
-        i = 0
+        """every produced file against the model of that whole file (records at a stop compare as a sorted group)"""
         ok = True
-        for item in s.expected_file:
-            if item and isinstance(item[0], list):
-                grp = sorted(got[i:i + len(item)])
-                ok = ok and grp == item
-                i += len(item)
-            elif item:
-                ok = ok and got[i:i + 1] == [item]
-                i += 1
-            want.append(item)
-        ok = ok and i == len(got)
-        t.judge("one_record_per_completion_of_matching_flow", ok, {"op": "final_file_content"}, list(hist), want, got)
+        want_all, got_all = {}, {}
+        for tick in range(MAX_TICKS + 1):
+            try:
+                with open(file_of(s.path, tick), "rb") as fo:
+                    try:
+                        got = [desc_real(f) for f in mio.FlowReader(fo).stream()]
+                    except Exception as e:
+                        got = [["<unreadable: %s>" % type(e).__name__, False, False]]
+            except FileNotFoundError:
+                got = []
+            i = 0
+            for item in s.expected_file.get(tick, []):
+                if item and isinstance(item[0], list):
+                    grp = sorted(got[i:i + len(item)])
+                    ok = ok and grp == item
+                    i += len(item)
+                elif item:
+                    ok = ok and got[i:i + 1] == [item]
+                    i += 1
+            ok = ok and i == len(got)
+            want_all[str(tick)] = s.expected_file.get(tick, [])
+            got_all[str(tick)] = got
+        t.judge("one_record_per_completion_of_matching_flow", ok, {"op": "final_file_content"}, list(hist), want_all, got_all)
 
 
 def run(ctx):
     # (flows taken from the pool per history, depth); each flow lives once, so the state space is finite: when a
     # level adds no new state before the depth bound is reached, every history of any length has been covered
-    scopes = ctx.pick([(3, 7)], [(3, 14), (4, 8)])
+    # a scope is (flows per history, clock ticks per history, depth)
+    scopes = ctx.pick([(3, 0, 7), (2, 1, 6)], [(3, 0, 14), (4, 0, 8), (3, 1, 9), (2, 2, 12)])
     ctx.bounds = {
-        "scopes": [{"flows_per_history": n, "depth": d} for n, d in scopes],
+        "scopes": [{"flows_per_history": n, "clock_ticks_per_history": k, "depth": d} for n, k, d in scopes],
+        "save_stream_file": "<scratch>/<pid>-<n>-%M.flows (strftime pattern; `tick` moves the patched clock by one minute)",
         "flow_pool": {k: list(v) for k, v in POOL.items()},
         "lifecycles": {k: {st: [h for h, _ in v] for st, v in NEXT[k].items()} for k in NEXT},
         "filters": FILTERS,
-        "control_actions": ["filter i", "stop", "start overwrite", "start append"],
+        "control_actions": ["filter i", "stop", "start overwrite", "start append", "tick"],
     }
     try:
-        for n, depth in scopes:
+        for n, k, depth in scopes:
             t = Tally()
-            states, capped = explore.bfs(Spec(max_concurrent=n), depth, t, log=ctx.log)
+            states, capped = explore.bfs(Spec(max_concurrent=n, max_ticks=k), depth, t, log=ctx.log)
             saturated = t.max_depth < depth  # no history reached the bound: the frontier ran empty first
             if saturated:
                 # the state graph is cyclic (filter/stop/start can repeat for ever), so there are no leaf histories;
                 # count one validated history per distinct state instead
                 t.executions += states
-                t.note("scope with %d flows: frontier empty before depth %d, every reachable state expanded" % (n, depth))
+                t.note("scope with %d flows, %d ticks: frontier empty before depth %d, every reachable state expanded" % (n, k, depth))
             ctx.tally.merge(t)
-            ctx.info["state_space_exhausted_with_%d_flows" % n] = saturated
-            ctx.log("bfs done (%d flows per history, depth %d): %d states%s" % (
-                n, depth, states, " - no new states: the whole reachable state space was covered" if saturated else ""))
+            ctx.info["state_space_exhausted_with_%d_flows_%d_ticks" % (n, k)] = saturated
+            ctx.log("bfs done (%d flows, %d clock ticks per history, depth %d): %d states%s" % (
+                n, k, depth, states, " - no new states: the whole reachable state space was covered" if saturated else ""))
     finally:
         if SCRATCH:
             shutil.rmtree(SCRATCH, ignore_errors=True)
 
 
 def replay(case, t: Tally, verbose=False):
-    spec = Spec()
+    spec = Spec(max_ticks=MAX_TICKS)
     try:
         s = spec.build()
         hist = []
